@@ -103,7 +103,7 @@ package internal
 
 //@ func (*sm2/internal.SM2Point).GetAffineX#ct
 //@ secret p
-//@ declassify p.z.IsZero() == 1 : point-at-infinity verdict (never taken for a scalar in [1, n-1])
+//@ verdicts
 //@ declassify xx : the affine x-coordinate is what every caller publishes (r = (e + x) mod n with r and e public); only the projective representation is secret
 //@ public_result
 
@@ -112,7 +112,7 @@ package internal
 
 // helper analysed in the context of its callers (no secret clause of its own)
 //@ func (*sm2/internal.SM2Point).bytes#ct
-//@ declassify p.z.IsZero() == 1 : point-at-infinity verdict (the encoding of infinity has a different length anyway)
+//@ verdicts
 
 // ---------------------------------------------------------------------------------------------
 // Ring-mode contracts (property C15): the straight-line bodies of the point operations against the
